@@ -7,13 +7,22 @@ from concurrent.futures import ThreadPoolExecutor
 V = os.path.dirname(os.path.dirname(os.path.abspath(__file__)))
 
 
+RELEVANT = False
+
+
 def one(name):
     d = os.path.join(V, "seeded", name)
     env = dict(os.environ, SEEDTEST_TAG="_" + name)
-    p = subprocess.run([sys.executable, os.path.join(V, "tools", "seedtest.py"), os.path.join(d, "patch.diff")], capture_output=True, text=True, env=env)
-    lines = [l for l in p.stdout.splitlines() if l[:1] == "C" and len(l) > 3 and l[1:3].isdigit()]
     mp = os.path.join(d, "meta.json")
     meta = json.load(open(mp)) if os.path.exists(mp) else {"name": name, "property": name.split("_")[0]}
+    ids = []
+    if RELEVANT:      # only the check of the property the change was written for + the checks that fired on it before
+        ids = sorted(set([meta.get("property", name.split("_")[0])] + list(meta.get("fired") or [])))
+    p = subprocess.run([sys.executable, os.path.join(V, "tools", "seedtest.py"), os.path.join(d, "patch.diff")] + ids, capture_output=True, text=True, env=env)
+    lines = [l for l in p.stdout.splitlines() if l[:1] == "C" and len(l) > 3 and l[1:3].isdigit()]
+    if RELEVANT and meta.get("checks"):
+        new = {l.split()[0]: l for l in lines}
+        lines = [new.get(l.split()[0], l + "  [not re-run]") for l in meta["checks"]]
     if "patch does not apply" in p.stdout:
         meta["applies_to_current_head"] = False
     else:
@@ -30,8 +39,12 @@ def one(name):
 
 
 def main():
+    global RELEVANT
     args = sys.argv[1:]
     j = 4
+    if "--relevant" in args:
+        args.remove("--relevant")
+        RELEVANT = True
     if args[:1] == ["-j"]:
         j = int(args[1])
         args = args[2:]
